@@ -211,7 +211,7 @@ theorem frame_storeTriggered (s : Tower) (node : Node) (k : Uuid) (a : Appt) (d 
     split
     · exact (h1.trans h2).trans (frame_deleteAppointments_single_norefund k _)
     · exact h1.trans h2
-  · exact FrameK.refl k s
+  · exact frame_deleteAppointments_single_norefund k s
 
 
 @[simp] theorem Db.updateUser_appts (d : Db) (u : User) (i : UserInfo) : (d.updateUser u i).appts = d.appts := by
@@ -450,7 +450,7 @@ theorem storeTriggered_users (s : Tower) (node : Node) (k : Uuid) (a : Appt) (d 
     · have h3 := deleteAppointments_norefund_users (handleBreach (storeAppointment s k a) node k d ‹_› a.user).1 [k]
       exact ⟨h3.1.trans (h2.1.trans h1.1), h3.2.trans (h2.2.trans h1.2)⟩
     · exact ⟨h2.1.trans h1.1, h2.2.trans h1.2⟩
-  · exact ⟨rfl, rfl⟩
+  · exact deleteAppointments_norefund_users s [k]
 
 end Teos
 
